@@ -348,13 +348,16 @@ func PopulateStructFields(m map[string]any, data any) {
 
 	// ... and the Go names of the fields that have another name in their tag: Lookup finds a field
 	// by either (a condition or an operator expression reads this map, {{ }} asks Lookup)
-	for i := range rt.NumField() {
-		f := rt.Field(i)
+	// (also of the fields that embedded structs promote)
+	for _, f := range reflect.VisibleFields(rt) {
 		if !f.IsExported() || f.Anonymous {
 			continue
 		}
-		if _, taken := m[f.Name]; !taken {
-			m[f.Name] = rv.Field(i).Interface()
+		if _, taken := m[f.Name]; taken {
+			continue
+		}
+		if fv, err := rv.FieldByIndexErr(f.Index); err == nil && fv.CanInterface() {
+			m[f.Name] = fv.Interface()
 		}
 	}
 }
